@@ -22,6 +22,7 @@ import (
 	"context"
 	"fmt"
 	"log/slog"
+	"net"
 	"sort"
 	"strings"
 	"sync"
@@ -47,7 +48,7 @@ func (l *c06Logs) Handle(_ context.Context, r slog.Record) error {
 func (l *c06Logs) WithAttrs([]slog.Attr) slog.Handler { return l }
 func (l *c06Logs) WithGroup(string) slog.Handler      { return l }
 
-var c06Profiles = []string{"cidr4", "cidr6", "domain", "domain-long", "forward", "forward-long", "mixed", "mixed-long"}
+var c06Profiles = []string{"cidr4", "cidr6", "cidr-lookalike", "domain", "domain-long", "forward", "forward-long", "mixed", "mixed-long"}
 
 // c06Set builds n distinct local routes of the given profile.
 func c06Set(rng *verifkit.Rand, profile string, n, salt int) []simRouteKey {
@@ -55,7 +56,7 @@ func c06Set(rng *verifkit.Rand, profile string, n, salt int) []simRouteKey {
 	for k := 0; k < n; k++ {
 		p := profile
 		if profile == "mixed" {
-			p = []string{"cidr4", "cidr6", "domain", "forward"}[rng.Intn(4)]
+			p = []string{"cidr4", "cidr6", "domain", "forward", "cidr-lookalike"}[rng.Intn(5)]
 		} else if profile == "mixed-long" {
 			p = []string{"cidr4", "domain-long", "forward-long", "domain"}[rng.Intn(4)]
 		}
@@ -65,6 +66,21 @@ func c06Set(rng *verifkit.Rand, profile string, n, salt int) []simRouteKey {
 			out = append(out, simRouteKey{Kind: "cidr", Key: simCIDR(id, false).String()})
 		case "cidr6":
 			out = append(out, simRouteKey{Kind: "cidr", Key: simCIDR(id, true).String()})
+		case "cidr-lookalike":
+			// IPv6 prefixes whose address looks like the other family: IPv4-mapped
+			// (::ffff:a.b.c.d, all lengths 96..128), IPv4-compatible (::a.b.c.d) and NAT64
+			// (64:ff9b::a.b.c.d). The two high bytes of the embedded address carry the id, so
+			// lengths >= 112 keep the routes distinct; a few fixed short ones come first.
+			fixed := []string{"::ffff:0:0/96", "::/0", "64:ff9b::/96", "::ffff:10.0.0.0/104", "::10.1.0.0/112", "::ffff:192.168.7.9/128", "::ffff:0:0/97", "::ffff:128.0.0.0/100"}
+			if k < len(fixed) {
+				out = append(out, simRouteKey{Kind: "cidr", Key: fixed[k]})
+				break
+			}
+			ln := rng.Range(112, 128)
+			lead := []string{"::ffff:", "::ffff:", "::", "64:ff9b::"}[rng.Intn(4)]
+			ip := net.ParseIP(fmt.Sprintf("%s%d.%d.%d.%d", lead, 1+id>>8&127, id&255, rng.Intn(256), rng.Intn(256)))
+			nw := &net.IPNet{IP: ip.Mask(net.CIDRMask(ln, 128)), Mask: net.CIDRMask(ln, 128)}
+			out = append(out, simRouteKey{Kind: "cidr", Key: fmt.Sprintf("%s%d.%d.%d.%d/%d", lead, nw.IP[12], nw.IP[13], nw.IP[14], nw.IP[15], ln)})
 		case "domain":
 			out = append(out, simRouteKey{Kind: "domain", Key: simDomain(id, rng.Bool(), 0)})
 		case "domain-long":
@@ -145,6 +161,26 @@ func c06Case(r *verifkit.R, phase string, ci int, rng *verifkit.Rand, profile st
 			}
 		}
 	}
+	// The routing manager keys local CIDR routes by IPNet.String(), which prints an IPv4-mapped
+	// IPv6 prefix exactly like its IPv4 twin (::ffff:10.0.0.0/104 -> "10.0.0.0/8"; both match the
+	// same addresses). One origin therefore never gets both twins from the harness.
+	for o, set := range sets {
+		seenStr := map[string]bool{}
+		kept := set[:0:0]
+		for _, k := range set {
+			if k.Kind == "cidr" {
+				if _, nw, err := net.ParseCIDR(k.Key); err == nil {
+					if seenStr[nw.String()] {
+						r.Add("twin_prefixes_skipped", 1)
+						continue
+					}
+					seenStr[nw.String()] = true
+				}
+			}
+			kept = append(kept, k)
+		}
+		sets[o] = kept
+	}
 	for o, set := range sets {
 		for _, k := range set {
 			if !s.AddLocal(o, k) {
@@ -176,7 +212,7 @@ func c06Case(r *verifkit.R, phase string, ci int, rng *verifkit.Rand, profile st
 	compare := func(role string, holder, origin int, wantPresence bool) {
 		want := map[simRouteKey]bool{}
 		for _, k := range sets[origin] {
-			want[k] = true
+			want[simCanonKey(k)] = true
 		}
 		got := map[simRouteKey]bool{}
 		presence := false
